@@ -671,4 +671,17 @@ theorem mpnMulModel_exact (P : Params) (hP : Valid P) (u v : List Nat) (hu : Lim
       have := hall a.length (by omega)
       exact mulNModel_exact P hP a b ha hb hl (by omega) (by rcases this with h | h; omega; exact h)
 
+/-- a limb vector is determined by its length and value -/
+theorem eq_toLimbs : ∀ (r : List Nat), Limbs r → r = toLimbs r.length (val r)
+  | [], _ => rfl
+  | x :: xs, h => by
+    have ⟨hx, hxs⟩ := Limbs_cons.mp h
+    have ih := eq_toLimbs xs hxs
+    simp only [List.length_cons, toLimbs, val_cons]
+    rw [Nat.add_mul_mod_self_left, Nat.mod_eq_of_lt hx, Nat.add_mul_div_left _ _ B_pos,
+      Nat.div_eq_of_lt hx, Nat.zero_add, ← ih]
+
+theorem eq_toLimbs_of {r : List Nat} {n x : Nat} (hL : Limbs r) (hn : r.length = n) (hx : val r = x) :
+    r = toLimbs n x := by rw [← hn, ← hx]; exact eq_toLimbs r hL
+
 end Mpir.MulLoops
